@@ -164,6 +164,15 @@ pub fn cell_oracle(c: &Cell) -> Verdict {
                 Rel::Reject => vassert!(r.is_err(), "mismatched_read_accepted", "row type_check lets (int, {t:?}) be read into (i32, {})", c.carrier),
                 Rel::Unspecified => {}
             }
+            // a row of another width never fits a 2-tuple (WrongColumnCount), whatever the column types
+            let int_spec = || ColumnSpec::owned("q".into(), ColumnType::Native(scylla_cql_core::frame::response::result::NativeType::Int), TableSpec::owned("ks".into(), "t".into()));
+            let wider = [specs[0].clone(), specs[1].clone(), int_spec()];
+            let narrower = [specs[0].clone()];
+            for (what, sp) in [("3 columns", &wider[..]), ("1 column", &narrower[..]), ("no columns", &[][..])] {
+                if let Some(r) = car.row_type_check(sp) {
+                    vassert!(r.is_err(), "row_width_mismatch_accepted", "row type_check lets a row of {what} be read into the 2-tuple (i32, {})", c.carrier);
+                }
+            }
         }
     }
     Ok(info.class(format!("depth{}", t.depth())))
@@ -416,7 +425,7 @@ pub fn run(ctx: &Ctx, rep: &mut Report) {
     LEVELS.store(ctx.tier.pick(2, 3), std::sync::atomic::Ordering::SeqCst);
     let tb = tables();
     rep.rule = format!(
-        "matrix (exhaustive): {} Rust carrier types (every leaf type the driver implements the value traits for - std, value::*, chrono, time, num-bigint 0.3/0.4, bigdecimal, secrecy, a derived UDT struct - alone and inside Option / Vec / Vec<Vec> / HashSet / BTreeSet / HashMap / BTreeMap / tuples / Box / Arc / MaybeEmpty, plus borrowed and serialize-only forms) x {} column types (20 natives; 20 one-level collections/tuples/UDTs/vectors per native; a second level over the lists, sets, vectors, maps and tuples; the thorough tier adds a third level). Per cell: a fully populated witness value is bound through SerializedValues::add_value after two earlier values and through a whole row (i32, T); DeserializeValue::type_check and the row (i32, T) type_check are called. The relation Accept/Reject/Unspecified is derived from docs/source/data-types (Unspecified - HashSet/BTreeSet for a list column, a Rust tuple shorter than the column's - may go either way). Accepted binds must decode (reference decoder) to the witness; refused binds must leave bytes and count untouched; element_count() == iter().count() == the parsed cell count always. histories: 1..24 binds into one SerializedValues - typed witnesses into accepted / rejected columns, values failing after part of them was written (a mistyped element at position k of a list/set/vector/map, a later tuple or UDT field, an inner list, a wrong vector dimension, an unknown UDT field), conversion overflows (BigDecimal exponent, leap-second NaiveTime), dynamic values; 2% of histories start 0..3 values short of 65 535 so that the 65 536th is attempted. Non-trivial = (matrix) a rejected pair with a nested column type; (histories) a failure after a partial write with other values present.",
+        "matrix (exhaustive): {} Rust carrier types (every leaf type the driver implements the value traits for - std, value::*, chrono, time, num-bigint 0.3/0.4, bigdecimal, secrecy, a derived UDT struct - alone and inside Option / Vec / Vec<Vec> / HashSet / BTreeSet / HashMap / BTreeMap / tuples / Box / Arc / MaybeEmpty, plus borrowed and serialize-only forms) x {} column types (20 natives; 20 one-level collections/tuples/UDTs/vectors per native; a second level over the lists, sets, vectors, maps and tuples; the thorough tier adds a third level). Per cell: a fully populated witness value is bound through SerializedValues::add_value after two earlier values and through a whole row (i32, T); DeserializeValue::type_check and the row (i32, T) type_check are called (the latter also against rows of 0, 1 and 3 columns, which never fit a 2-tuple). The relation Accept/Reject/Unspecified is derived from docs/source/data-types (Unspecified - HashSet/BTreeSet for a list column, a Rust tuple shorter than the column's - may go either way). Accepted binds must decode (reference decoder) to the witness; refused binds must leave bytes and count untouched; element_count() == iter().count() == the parsed cell count always. histories: 1..24 binds into one SerializedValues - typed witnesses into accepted / rejected columns, values failing after part of them was written (a mistyped element at position k of a list/set/vector/map, a later tuple or UDT field, an inner list, a wrong vector dimension, an unknown UDT field), conversion overflows (BigDecimal exponent, leap-second NaiveTime), dynamic values; 2% of histories start 0..3 values short of 65 535 so that the 65 536th is attempted. Non-trivial = (matrix) a rejected pair with a nested column type; (histories) a failure after a partial write with other values present.",
         tb.carriers.len(),
         tb.types.len()
     );
